@@ -40,19 +40,3 @@ func enclosing(root ast.Node, n ast.Node) []ast.Node {
 	})
 	return out
 }
-
-// loopsAround returns the recognised counting loops enclosing n (outermost first)
-// and any unrecognised loop statement met.
-func loopsAround(sc *fnScope, root ast.Node, n ast.Node) (loops []*Loop, unknown ast.Node) {
-	for _, a := range enclosing(root, n) {
-		switch a.(type) {
-		case *ast.ForStmt, *ast.RangeStmt:
-			if l := sc.loopOf(a.(ast.Stmt)); l != nil {
-				loops = append(loops, l)
-			} else {
-				unknown = a
-			}
-		}
-	}
-	return
-}
